@@ -13,6 +13,7 @@ import (
 	"log/slog"
 	"math"
 	"os"
+	"runtime"
 	"slices"
 	"sort"
 	"strings"
@@ -101,6 +102,7 @@ type NodeSpec struct {
 
 // RecSpec is one record and the nodes it is handled by.
 type RecSpec struct {
+	HasPC     bool         `json:"has_pc,omitempty"`  // the record carries a real program counter
 	BigMsg    int          `json:"big_msg,omitempty"` // if > 0 the message is that many bytes long
 	Level     int          `json:"level"`
 	HasTime   bool         `json:"has_time"`
@@ -115,6 +117,7 @@ type Case struct {
 	NilLevel    bool       `json:"nil_level"`
 	Level       int        `json:"cfg_level"`
 	ReplaceAttr bool       `json:"replace_attr"`
+	AddSource   bool       `json:"add_source,omitempty"`
 	Nodes       []NodeSpec `json:"nodes"`
 	Records     []RecSpec  `json:"records"`
 	Goroutines  int        `json:"goroutines"` // concurrent variant
@@ -124,7 +127,7 @@ func (c Case) opts() *slog.HandlerOptions {
 	if c.NilOpts {
 		return nil
 	}
-	o := &slog.HandlerOptions{}
+	o := &slog.HandlerOptions{AddSource: c.AddSource}
 	if !c.NilLevel {
 		o.Level = slog.Level(c.Level)
 	}
@@ -184,7 +187,13 @@ func (r RecSpec) build() slog.Record {
 	if r.BigMsg > 0 {
 		msg = strings.Repeat("m", r.BigMsg)
 	}
-	rec := slog.NewRecord(tm, slog.Level(r.Level), msg, 0)
+	var pc uintptr
+	if r.HasPC {
+		var pcs [1]uintptr
+		runtime.Callers(1, pcs[:])
+		pc = pcs[0]
+	}
+	rec := slog.NewRecord(tm, slog.Level(r.Level), msg, pc)
 	for _, call := range r.AttrCalls {
 		rec.AddAttrs(buildAll(call)...)
 	}
@@ -306,6 +315,9 @@ func classify(c Case, prefix string) {
 	if siblings {
 		vp.Class(prefix + ":tree-with-siblings")
 	}
+	if c.AddSource && !c.NilOpts {
+		vp.Class(prefix + ":AddSource")
+	}
 	for _, r := range c.Records {
 		if len(r.Uses) >= 2 {
 			vp.Class(prefix + ":record-handled-by-several-handlers")
@@ -376,6 +388,7 @@ func genCase(t *rapid.T, concurrent bool) Case {
 		NilLevel:    rapid.IntRange(0, 4).Draw(t, "nillevel") == 0,
 		Level:       rapid.SampledFrom([]int{-8, -4, 0, 4, 8, 2, -100}).Draw(t, "cfglevel"),
 		ReplaceAttr: rapid.Bool().Draw(t, "replaceattr"),
+		AddSource:   rapid.IntRange(0, 3).Draw(t, "addsource") == 0,
 	}
 	nn := rapid.IntRange(0, 8).Draw(t, "nodes")
 	for i := 0; i < nn; i++ {
@@ -393,6 +406,7 @@ func genCase(t *rapid.T, concurrent bool) Case {
 		r := RecSpec{
 			Level:   rapid.SampledFrom([]int{-8, -4, 0, 4, 7, 8, 9, 12}).Draw(t, "level"),
 			HasTime: rapid.Bool().Draw(t, "hastime"),
+			HasPC:   rapid.Bool().Draw(t, "haspc"),
 			Msg:     vp.S(strGen.Draw(t, "msg")),
 			Uses:    rapid.SliceOfN(rapid.IntRange(0, nn), 1, 4).Draw(t, "uses"),
 		}
@@ -527,8 +541,8 @@ func TestRegression(t *testing.T) {
 		call = append(call, AttrSpec{Key: vp.S(fmt.Sprintf("k%d", i)), Kind: 1, Int: int64(i)})
 	}
 	c := Case{
-		Level: -8,
-		Nodes: []NodeSpec{{Parent: 0, Attrs: []AttrSpec{{Key: "h1", Kind: 0, Str: "x"}}}, {Parent: 0, Attrs: []AttrSpec{{Key: "h2", Kind: 0, Str: "y"}}}, {Parent: 1, Attrs: []AttrSpec{{Key: "h3", Kind: 1, Int: 3}}}},
+		Level:   -8,
+		Nodes:   []NodeSpec{{Parent: 0, Attrs: []AttrSpec{{Key: "h1", Kind: 0, Str: "x"}}}, {Parent: 0, Attrs: []AttrSpec{{Key: "h2", Kind: 0, Str: "y"}}}, {Parent: 1, Attrs: []AttrSpec{{Key: "h3", Kind: 1, Int: 3}}}},
 		Records: []RecSpec{{Level: 0, Msg: "m", AttrCalls: [][]AttrSpec{call, call, call}, Uses: []int{1, 2, 3, 1}}},
 	}
 	if os.Getenv("VP_VARIANT") == "conc" {
